@@ -15,6 +15,7 @@ import (
 	"strings"
 	"sync"
 	"sync/atomic"
+	"syscall"
 	"testing"
 	"time"
 
@@ -550,6 +551,7 @@ type c45Outcome struct {
 	Done     bool
 	Late     int64 // deliveries observed after Done
 	Stuck    string
+	StuckMode string // spinning | quiescent
 	Slow     string
 	Elapsed  time.Duration
 	RunErr   error
@@ -571,6 +573,13 @@ func c45ProcessedCounts(h StreamHandle) ([]int, []bool) {
 		running = append(running, pid.IsRunning())
 	}
 	return counts, running
+}
+
+// c45CPU is the CPU time (user+system) the process has used so far.
+func c45CPU() time.Duration {
+	var ru syscall.Rusage
+	_ = syscall.Getrusage(syscall.RUSAGE_SELF, &ru)
+	return time.Duration(ru.Utime.Nano() + ru.Stime.Nano())
 }
 
 var c45DumpOnce sync.Once
@@ -598,6 +607,7 @@ func c45Await(h StreamHandle, o *c45Outcome) {
 	deadline := time.Now().Add(10 * time.Minute)
 	c1, r1 := c45ProcessedCounts(h)
 	quiet := 0
+	cpu0, t0 := c45CPU(), time.Now()
 	for time.Now().Before(deadline) {
 		select {
 		case <-h.Done():
@@ -617,11 +627,17 @@ func c45Await(h StreamHandle, o *c45Outcome) {
 			quiet++
 		} else {
 			quiet = 0
+			cpu0, t0 = c45CPU(), time.Now()
 		}
 		c1, r1 = c2, r2
 		if quiet >= 5 && r2[len(r2)-1] {
 			c45DumpStacks()
-			o.Stuck = fmt.Sprintf("no stage actor processed a message for 10 s after a %s watchdog while the sink actor is alive; processed=%v running=%v", c45Watchdog, c2, r2)
+			burn := float64(c45CPU()-cpu0) / float64(time.Since(t0))
+			o.StuckMode = "quiescent"
+			if burn > 0.1 {
+				o.StuckMode = "spinning" // nothing is processed and yet the process burns CPU
+			}
+			o.Stuck = fmt.Sprintf("no stage actor processed a message for 10 s after a %s watchdog while the sink actor is alive; processed=%v running=%v; process CPU over that window: %.2f cores", c45Watchdog, c2, r2, burn)
 			return
 		}
 	}
@@ -893,7 +909,7 @@ func (c *c45Case) judge(r *verifrt.Run, o c45Outcome, e c45Expect) (bad bool) {
 				flow = append(flow, fmt.Sprintf("%d:%s saw %d of %d", i, c.Stages[i].Kind, len(p.snapshot()), len(e.StageIn[i])))
 			}
 		}
-		r.Violation("stream-never-completes:stages="+kinds+":sink="+c.Sink, detail(map[string]any{"stuck": o.Stuck, "progress_per_probed_stage": flow}))
+		r.Violation("stream-never-completes:"+o.StuckMode+":stages="+kinds+":sink="+c.Sink, detail(map[string]any{"stuck": o.Stuck, "progress_per_probed_stage": flow}))
 		return true
 	}
 	if !o.Done {
@@ -991,6 +1007,7 @@ func TestVerif_C45(t *testing.T) {
 			reps = 0
 		}
 		for k := 0; k < reps; k++ {
+			runtime.GOMAXPROCS(4)
 			sys := c45NewSystem(t)
 			c := c45GenCase(seed)
 			o := c.run(sys)
@@ -1008,12 +1025,17 @@ func TestVerif_C45(t *testing.T) {
 	n := r.N(320, 30000)
 	stuck := 0
 	for done := 0; done < n && stuck < 4; {
-		g := []int{1, 1, 2, 4}[rng.Intn(4)]
+		g := 1 // one case per actor system: clean attribution of a stuck system
 		if g > n-done {
 			g = n - done
 		}
 		// a fresh actor system per group: actors of finished streams must not
 		// influence later cases
+		// the dispatcher sizes its worker pool from GOMAXPROCS at system start; small
+		// pools also bound what stopped-but-spinning stage actors can burn
+		procs := []int{2, 4, 4, 8}[rng.Intn(4)]
+		runtime.GOMAXPROCS(procs)
+		r.Count(fmt.Sprintf("groups_gomaxprocs_%d", procs), 1)
 		tSys := time.Now()
 		sys := c45NewSystem(t)
 		r.Count("system_start_ms", time.Since(tSys).Milliseconds())
